@@ -8,7 +8,12 @@ A configuration (JSON-able dict) selects one decorated target:
 
   {"fam": "alru",  "target": "function"|"method", "maxsize": 1..3, "key": "default"|"norm"|"coarse", "body": "imm"|"block"}
   {"fam": "acpi",  "sig": "ab"|"ac"|"abc", "body": "imm"|"block"}     ("abc" = p(self, a, b=2, *, c=0), thorough tier only)
-  {"fam": "alazy", "ttl": 0|5, "body": "imm"|"block"}
+  {"fam": "alazy", "ttl": 0|5, "body": "imm"|"block" [, "start": first clock value (default 1000000)]}
+
+  plus "pair": true on any of them: ONE decorator object (the result of alru_cache(...), acached_per_instance(),
+  alazy_constant(ttl)) is applied to TWO functions / methods (f and g, m and k, z and y) whose calls are interleaved
+  in the histories; the reference keeps one independent cache per decorated function.  Pair configurations use a
+  reduced spelling menu (x(a), x(a, b=1), x(a=a)); the full menu is covered by the single-function configurations.
 
 A history is a tuple of indices into the configuration's operation table.  Every history is executed on fresh
 real objects (fresh @asynq function, fresh decorator, fresh instances, fresh scheduler); the reference runs in
@@ -43,13 +48,13 @@ class HErr(Exception):
 class World(object):
     __slots__ = ("runs", "block", "flushes", "active", "armed", "now", "bad")
 
-    def __init__(self, block):
+    def __init__(self, block, start=CLOCK_START):
         self.runs = []  # body-run log
         self.block = block
         self.flushes = 0
         self.active = None  # current harness batch
         self.armed = False  # alazy: next body run raises
-        self.now = CLOCK_START
+        self.now = start
         self.bad = []  # harness inconsistencies
 
 
@@ -191,7 +196,87 @@ def z_block():
     return rec
 
 
-BODIES = {("f", "imm"): f_imm, ("f", "block"): f_block, ("m", "imm"): m_imm, ("m", "block"): m_block,
+def _twin_f(tag):
+    def imm(a, b=2, *, c=0):
+        rec = (tag, a, b, c)
+        CUR.runs.append(rec)
+        if a == RAISE_A and b == RAISE_2ND:
+            raise HErr(rec)
+        return rec
+
+    def block(a, b=2, *, c=0):
+        w = CUR
+        rec = (tag, a, b, c)
+        w.runs.append(rec)
+        got = yield CItem(w, rec)
+        if got != ("item", rec):
+            w.bad.append("batch item delivered %r" % (got,))
+        if a == RAISE_A and b == RAISE_2ND:
+            raise HErr(rec)
+        return rec
+
+    imm.__name__ = block.__name__ = imm.__qualname__ = block.__qualname__ = tag
+    return imm, block
+
+
+def _twin_m(tag):
+    def imm(self, a, b=2):
+        rec = (tag, self.slot, a, b)
+        CUR.runs.append(rec)
+        if a == RAISE_A and b == RAISE_2ND:
+            raise HErr(rec)
+        return rec
+
+    def block(self, a, b=2):
+        w = CUR
+        rec = (tag, self.slot, a, b)
+        w.runs.append(rec)
+        got = yield CItem(w, rec)
+        if got != ("item", rec):
+            w.bad.append("batch item delivered %r" % (got,))
+        if a == RAISE_A and b == RAISE_2ND:
+            raise HErr(rec)
+        return rec
+
+    imm.__name__ = block.__name__ = imm.__qualname__ = block.__qualname__ = tag
+    return imm, block
+
+
+def _twin_z(tag):
+    def imm():
+        w = CUR
+        rec = (tag, len(w.runs) + 1)
+        w.runs.append(rec)
+        if w.armed:
+            w.armed = False
+            raise HErr(rec)
+        return rec
+
+    def block():
+        w = CUR
+        rec = (tag, len(w.runs) + 1)
+        w.runs.append(rec)
+        got = yield CItem(w, rec)
+        if got != ("item", rec):
+            w.bad.append("batch item delivered %r" % (got,))
+        if w.armed:
+            w.armed = False
+            raise HErr(rec)
+        return rec
+
+    imm.__name__ = block.__name__ = imm.__qualname__ = block.__qualname__ = tag
+    return imm, block
+
+
+# the second function of a "pair" configuration (same signature as its twin, values tagged with its own name)
+TWIN = {"f": "g", "m": "k", "z": "y"}
+g_imm, g_block = _twin_f("g")
+k_imm, k_block = _twin_m("k")
+y_imm, y_block = _twin_z("y")
+
+BODIES = {("g", "imm"): g_imm, ("g", "block"): g_block, ("k", "imm"): k_imm, ("k", "block"): k_block,
+          ("y", "imm"): y_imm, ("y", "block"): y_block,
+          ("f", "imm"): f_imm, ("f", "block"): f_block, ("m", "imm"): m_imm, ("m", "block"): m_block,
           ("n", "imm"): n_imm, ("n", "block"): n_block, ("p", "imm"): p_imm, ("p", "block"): p_block,
           ("z", "imm"): z_imm, ("z", "block"): z_block}
 
@@ -251,7 +336,7 @@ KEYFNS = {("f", "norm"): kf_f_norm, ("f", "coarse"): kf_f_coarse, ("m", "norm"):
 
 class Op(object):
     __slots__ = ("kind", "form", "slot", "args", "kwargs", "norm", "names", "key", "text", "feats", "raises",
-                 "value", "shape", "step")
+                 "value", "shape", "step", "unit", "tag")
 
     def __init__(self, kind):
         self.kind = kind
@@ -268,6 +353,8 @@ class Op(object):
         self.value = None
         self.shape = None
         self.step = 0
+        self.unit = 0
+        self.tag = None
 
 
 FORMS = ("sync", "asynq-value")
@@ -309,16 +396,29 @@ def _spellings(sig):
     return out
 
 
-def _call_ops(sig, slots, refkey):
-    """call operations for body signature `sig` ("f" function, "m"/"n" methods) on the given instance slots"""
+def _reduced(args, kwargs):
+    """the spelling menu of pair configurations: x(a), x(a, b=1), x(a=a)"""
+    if len(args) == 1:
+        return not kwargs or kwargs == {"b": B_OTHER}
+    return not args and list(kwargs) == ["a"]
+
+
+def _call_ops(sig, slots, refkey, tag=None, unit=0, reduced=False):
+    """call operations for body signature `sig` ("f" function, "m"/"n"/"p" methods) on the given instance slots;
+    `tag` names the decorated function when it is not the signature's own (the twin of a pair configuration)"""
     body = BODIES[(sig, "imm")]
     s = inspect.signature(body)
     params = list(s.parameters)
     ops = []
+    tag = tag or sig
     for slot in slots:
         for args, kwargs in _spellings(sig):
+            if reduced and not _reduced(args, kwargs):
+                continue
             for form in (0, 1):
                 op = Op("call")
+                op.unit = unit
+                op.tag = tag
                 op.form = form
                 op.slot = slot
                 op.args = args
@@ -331,16 +431,16 @@ def _call_ops(sig, slots, refkey):
                 ba.apply_defaults()
                 op.names = tuple(params)
                 op.norm = tuple(ba.arguments[p] for p in params)
-                op.value = (sig,) + op.norm
+                op.value = (tag,) + op.norm
                 second = ba.arguments["b"] if "b" in ba.arguments else ba.arguments["c"]
                 op.raises = ba.arguments["a"] == RAISE_A and second == RAISE_2ND
                 op.key = refkey(op)
                 op.shape = (len(args), tuple(sorted(kwargs)))
                 spelled = ", ".join([repr(x) for x in args] + ["%s=%r" % kv for kv in kwargs.items()])
                 if slot is None:
-                    op.text = "%s(%s) [%s]" % (sig, spelled, FORMS[form])
+                    op.text = "%s(%s) [%s]" % (tag, spelled, FORMS[form])
                 else:
-                    op.text = "I%d.%s(%s) [%s]" % (slot, sig, spelled, FORMS[form])
+                    op.text = "I%d.%s(%s) [%s]" % (slot, tag, spelled, FORMS[form])
                 ft = ["form:" + FORMS[form], "npos:%d" % len(args)]
                 ft += ["kw:" + k for k in sorted(kwargs)]
                 if kwargs and args:
@@ -434,7 +534,7 @@ class Runtime(object):
         global CUR
         _sched.reset()
         _tools.utime = _clock
-        self.w = CUR = World(self.block)
+        self.w = CUR = World(self.block, self.cfg.get("start", CLOCK_START))
 
     def viol(self, sig, msg, op, extra=()):
         return {"sig": sig, "msg": msg, "features": sorted(set(self.base_feats + list(op.feats) + list(extra)))}
@@ -482,6 +582,11 @@ class Runtime(object):
         if not hit_expected and not ran:
             if real[0] == "ok":
                 v = tok(real[1])
+                if op.tag is not None and isinstance(v, tuple) and v[:1] != (op.tag,) and v[:1] in self.other_tags(op):
+                    return self.viol("served-other-function",
+                                     "%s: returned %r, a value cached for ANOTHER FUNCTION decorated with the same decorator "
+                                     "object, without running the body (reference: miss, %s)" % (call, v, what), op,
+                                     self.dyn_feats(op))
                 if op.kind == "call" and isinstance(v, tuple) and v[:1] == op.value[:1] and v != op.value:
                     df = _differs(op.names, v[1:], op.norm)
                     if "differs:self" in df:
@@ -516,19 +621,27 @@ class Runtime(object):
     def dyn_feats(self, op):
         return []
 
+    def other_tags(self, op):
+        return [(t,) for t in getattr(self, "tags", ()) if t != op.tag]
+
 
 class AlruRT(Runtime):
     def __init__(self, cfg):
         Runtime.__init__(self, cfg)
         self.maxsize = cfg["maxsize"]
         self.sig = "f" if cfg["target"] == "function" else "m"
+        self.pair = bool(cfg.get("pair"))
+        self.tags = [self.sig] + ([TWIN[self.sig]] if self.pair else [])
         self.keykind = cfg["key"]
         self.key_fn = None if self.keykind == "default" else KEYFNS[(self.sig, self.keykind)]
         self.base_feats += [cfg["target"], "maxsize:%d" % self.maxsize,
                             "default-key" if self.key_fn is None else "keyfn-" + self.keykind]
-        slots = (None,) if self.sig == "f" else (0, 1)
-        self.ops = _call_ops(self.sig, slots, self._refkey)
-        self.body = BODIES[(self.sig, cfg["body"])]
+        if self.pair:
+            self.base_feats.append("shared-decorator")
+        self.slots = (None,) if self.sig == "f" else ((0,) if self.pair else (0, 1))
+        for u, tag in enumerate(self.tags):
+            self.ops += _call_ops(self.sig, self.slots, self._refkey, tag=tag, unit=u, reduced=self.pair)
+        self.bodies = [BODIES[(tag, cfg["body"])] for tag in self.tags]
         self._last_ent = None
 
     def _refkey(self, op):
@@ -540,17 +653,18 @@ class AlruRT(Runtime):
 
     def fresh(self):
         self.begin()
-        fn = _asynq()(self.body)
-        deco = _tools.alru_cache(maxsize=self.maxsize, key_fn=self.key_fn)(fn)
-        self.cache = _closure_cell(deco.fn, "cache")
+        # ONE decorator object; a pair configuration applies it to both functions
+        decorator = _tools.alru_cache(maxsize=self.maxsize, key_fn=self.key_fn)
+        decos = [decorator(_asynq()(b)) for b in self.bodies]
+        self.caches = [_closure_cell(d.fn, "cache") for d in decos]
         if self.sig == "f":
-            self.targets = {None: deco}
+            self.targets = decos
             self.insts = None
         else:
-            cls = type("Host", (HostBase,), {"m": deco})
-            self.insts = [cls(0), cls(1)]
+            cls = type("Host", (HostBase,), dict(zip(self.tags, decos)))
+            self.insts = [cls(slot) for slot in self.slots]
             self.targets = None
-        self.ref = OrderedDict()  # key -> (value, shape, text) ; least recently used first
+        self.refs = [OrderedDict() for _ in self.tags]  # per function: key -> (value, shape, text) ; LRU first
         self._last_ent = None
 
     def enabled(self):
@@ -558,9 +672,9 @@ class AlruRT(Runtime):
 
     def _invoke(self, op):
         if self.insts is None:
-            t = self.targets[None]
+            t = self.targets[op.unit]
         else:
-            t = self.insts[op.slot].m
+            t = getattr(self.insts[op.slot], op.tag)
         try:
             if op.form == 0:
                 return ("ok", t(*op.args, **op.kwargs))
@@ -581,7 +695,7 @@ class AlruRT(Runtime):
         n0 = len(w.runs)
         real = self._invoke(op)
         ran = w.runs[n0:]
-        ref = self.ref
+        ref = self.refs[op.unit]
         key = op.key
         ent = ref.get(key)
         self._last_ent = ent
@@ -594,7 +708,7 @@ class AlruRT(Runtime):
             self.count("hits")
         else:
             exp_ran = [op.value]
-            what = "no entry for this key"
+            what = "no entry for this key" + (" in %s's own cache" % op.tag if self.pair else "")
             if op.raises:
                 exp = ("err", op.value)
                 self.count("raising calls")
@@ -609,38 +723,52 @@ class AlruRT(Runtime):
         if v is not None:
             return [v]
         # cache content (explicit parts of the statement: no entry after a raise, <= maxsize, LRU victim)
-        if self.cache is None:
-            return []
-        real_vals = [tok(x) for x in self.cache.values()]
-        ref_vals = [e[0] for e in ref.values()]
-        if len(real_vals) > self.maxsize:
-            return [self.viol("lru-oversize", "%s: the cache holds %d entries, maxsize is %d" % (op.text, len(real_vals), self.maxsize), op)]
-        if sorted(real_vals, key=repr) != sorted(ref_vals, key=repr):
-            if exp[0] == "err":
-                return [self.viol("raise-left-entry", "%s: the body raised but the cache content changed: holds %r, reference %r"
-                                  % (op.text, real_vals, ref_vals), op)]
-            if evicted is not None:
-                return [self.viol("lru-victim", "%s: cache full; the reference evicts the least recently used %r, the cache now holds %r"
-                                  " (reference %r)" % (op.text, evicted[1][0], real_vals, ref_vals), op)]
-            return [self.viol("content-mismatch", "%s: the cache holds %r, the reference %r" % (op.text, real_vals, ref_vals), op)]
+        for u, tag in enumerate(self.tags):
+            cache = self.caches[u]
+            if cache is None:
+                continue
+            who = "%s's cache" % tag if self.pair else "the cache"
+            real_vals = [tok(x) for x in cache.values()]
+            ref_vals = [e[0] for e in self.refs[u].values()]
+            if len(real_vals) > self.maxsize:
+                return [self.viol("lru-oversize", "%s: %s holds %d entries, maxsize is %d"
+                                  % (op.text, who, len(real_vals), self.maxsize), op)]
+            if sorted(real_vals, key=repr) != sorted(ref_vals, key=repr):
+                if u != op.unit and cache is self.caches[op.unit]:
+                    return [self.viol("cache-shared-between-functions",
+                                      "%s: the two functions decorated with one alru_cache(...) object share ONE cache object "
+                                      "(one key space, one maxsize budget): %s holds %r, its own reference cache %r"
+                                      % (op.text, who, real_vals, ref_vals), op)]
+                if exp[0] == "err":
+                    return [self.viol("raise-left-entry", "%s: the body raised but the cache content changed: %s holds %r, reference %r"
+                                      % (op.text, who, real_vals, ref_vals), op)]
+                if evicted is not None and u == op.unit:
+                    return [self.viol("lru-victim", "%s: cache full; the reference evicts the least recently used %r, %s now holds %r"
+                                      " (reference %r)" % (op.text, evicted[1][0], who, real_vals, ref_vals), op)]
+                return [self.viol("content-mismatch", "%s: %s holds %r, the reference %r" % (op.text, who, real_vals, ref_vals), op)]
         return []
 
     def canon(self):
         w = self.w
-        return (tuple([(k, e[0]) for k, e in self.ref.items()]),
-                tuple([(tok(k), tok(v)) for k, v in self.cache.items()]) if self.cache is not None else None,
+        return (tuple([tuple([(k, e[0]) for k, e in ref.items()]) for ref in self.refs]),
+                tuple([None if c is None else tuple([(tok(k), tok(v)) for k, v in c.items()]) for c in self.caches]),
                 len(w.runs))
 
     def nontrivial(self):
-        return len(self.ref) > 0 or (self.cache is not None and len(self.cache) > 0)
+        return any(len(r) for r in self.refs) or any(c is not None and len(c) > 0 for c in self.caches)
 
 
 class AcpiRT(Runtime):
     def __init__(self, cfg):
         Runtime.__init__(self, cfg)
         self.sig = {"ab": "m", "ac": "n", "abc": "p"}[cfg["sig"]]
+        self.pair = bool(cfg.get("pair"))
+        self.tags = [self.sig] + ([TWIN[self.sig]] if self.pair else [])
         self.base_feats += ["method", "sig:" + cfg["sig"], "default-key"]
-        self.ops = _call_ops(self.sig, (0, 1), lambda op: op.norm[1:])
+        if self.pair:
+            self.base_feats.append("shared-decorator")
+        for u, tag in enumerate(self.tags):
+            self.ops += _call_ops(self.sig, (0, 1), lambda op: op.norm[1:], tag=tag, unit=u, reduced=self.pair)
         self.ncalls = len(self.ops)
         for slot in (0, 1):
             op = Op("del")
@@ -648,17 +776,18 @@ class AcpiRT(Runtime):
             op.text = "del I%d; gc.collect()" % slot
             op.feats = ["delete-instance"]
             self.ops.append(op)
-        self.body = BODIES[(self.sig, cfg["body"])]
+        self.bodies = [BODIES[(tag, cfg["body"])] for tag in self.tags]
         self._last_ent = None
 
     def fresh(self):
         self.begin()
-        fn = _asynq()(self.body)
-        deco = _tools.acached_per_instance()(fn)
-        self.cls = type("Host", (HostBase,), {self.sig: deco})
-        self.cache = deco.__acached_per_instance_cache__
+        decorator = _tools.acached_per_instance()  # ONE decorator object; a pair configuration applies it to both methods
+        decos = [decorator(_asynq()(b)) for b in self.bodies]
+        self.cls = type("Host", (HostBase,), dict(zip(self.tags, decos)))
+        self.caches = [d.__acached_per_instance_cache__ for d in decos]
         self.insts = [self.cls(0), self.cls(1)]
-        self.ref = [{}, {}]  # per slot: key -> (value, shape, text); None while the slot is empty
+        # per method, per slot: key -> (value, shape, text); None while the slot is empty
+        self.refs = [[{}, {}] for _ in self.tags]
         self.generation = [0, 0]
         self.ndeleted = 0
         self._last_ent = None
@@ -680,7 +809,7 @@ class AcpiRT(Runtime):
         return ft
 
     def _invoke(self, op):
-        t = getattr(self.insts[op.slot], self.sig)
+        t = getattr(self.insts[op.slot], op.tag)
         try:
             if op.form == 0:
                 return ("ok", t(*op.args, **op.kwargs))
@@ -690,15 +819,15 @@ class AcpiRT(Runtime):
                 raise
             return _outcome(e)
 
-    def _real_content(self):
-        """per slot: list of (key, value) or None; plus ids that belong to no live instance"""
+    def _real_content(self, u):
+        """method u, per slot: list of (key, value) or None; plus entries that belong to no live instance"""
         by_id = {}
         for i, inst in enumerate(self.insts):
             if inst is not None:
                 by_id[id(inst)] = i
         per = [None, None]
         stale = []
-        for ident, ent in list(self.cache.items()):
+        for ident, ent in list(self.caches[u].items()):
             slot = by_id.get(ident)
             try:
                 items = [(tok(k), tok(v)) for k, v in ent[1].items()]
@@ -718,13 +847,14 @@ class AcpiRT(Runtime):
         if self.insts[slot] is None:
             # a new object takes the slot (it may well get the id() of the collected one)
             self.insts[slot] = self.cls(slot)
-            self.ref[slot] = {}
+            for r in self.refs:
+                r[slot] = {}
             self.generation[slot] += 1
             self.count("instances re-created")
         n0 = len(w.runs)
         real = self._invoke(op)
         ran = w.runs[n0:]
-        ref = self.ref[slot]
+        ref = self.refs[op.unit][slot]
         key = op.key
         ent = ref.get(key)
         self._last_ent = ent
@@ -735,7 +865,7 @@ class AcpiRT(Runtime):
             self.count("hits")
         else:
             exp_ran = [op.value]
-            what = "no entry for this key on this instance"
+            what = "no entry for this key on this instance" + (" in %s's own cache" % op.tag if self.pair else "")
             if op.raises:
                 exp = ("err", op.value)
                 self.count("raising calls")
@@ -749,24 +879,25 @@ class AcpiRT(Runtime):
         return self._content_check(op, exp[0] == "err")
 
     def _content_check(self, op, raised):
-        per, stale = self._real_content()
-        if stale:
-            if not self.ndeleted:
-                return [self.viol("entry-not-per-instance",
-                                  "%s: __acached_per_instance_cache__ holds %d entr%s under a key that is not the id of any "
-                                  "live instance although no instance was deleted yet (not keyed per instance?): %r"
+        for u, tag in enumerate(self.tags):
+            per, stale = self._real_content(u)
+            if stale:
+                if not self.ndeleted:
+                    return [self.viol("entry-not-per-instance",
+                                      "%s: __acached_per_instance_cache__ holds %d entr%s under a key that is not the id of any "
+                                      "live instance although no instance was deleted yet (not keyed per instance?): %r"
+                                      % (op.text, len(stale), "y" if len(stale) == 1 else "ies", stale), op)]
+                return [self.viol("entry-after-gc", "%s: the per-instance cache keeps %d entr%s of collected instance(s): %r"
                                   % (op.text, len(stale), "y" if len(stale) == 1 else "ies", stale), op)]
-            return [self.viol("entry-after-gc", "%s: the per-instance cache keeps %d entr%s of collected instance(s): %r"
-                              % (op.text, len(stale), "y" if len(stale) == 1 else "ies", stale), op)]
-        for slot in (0, 1):
-            rv = sorted([v for k, v in (per[slot] or [])], key=repr)
-            fv = sorted([e[0] for e in (self.ref[slot] or {}).values()], key=repr)
-            if rv != fv:
-                if raised:
-                    return [self.viol("raise-left-entry", "%s: the body raised but instance I%d's cache changed: holds %r, reference %r"
-                                      % (op.text, slot, rv, fv), op)]
-                return [self.viol("content-mismatch", "%s: instance I%d's cache holds %r, the reference %r"
-                                  % (op.text, slot, rv, fv), op)]
+            for slot in (0, 1):
+                rv = sorted([v for k, v in (per[slot] or [])], key=repr)
+                fv = sorted([e[0] for e in (self.refs[u][slot] or {}).values()], key=repr)
+                if rv != fv:
+                    who = "instance I%d's cache%s" % (slot, " of method %s" % tag if self.pair else "")
+                    if raised:
+                        return [self.viol("raise-left-entry", "%s: the body raised but %s changed: holds %r, reference %r"
+                                          % (op.text, who, rv, fv), op)]
+                    return [self.viol("content-mismatch", "%s: %s holds %r, the reference %r" % (op.text, who, rv, fv), op)]
         return []
 
     def _delete(self, op):
@@ -775,7 +906,8 @@ class AcpiRT(Runtime):
         wr = weakref.ref(inst)
         ident = id(inst)
         self.insts[slot] = None
-        self.ref[slot] = None
+        for r in self.refs:
+            r[slot] = None
         del inst
         gc.collect()
         self.ndeleted += 1
@@ -783,41 +915,55 @@ class AcpiRT(Runtime):
         if wr() is not None:
             return [self.viol("harness-instance-leak", "%s: the instance is still alive after del + gc.collect() "
                               "(referrers: %s)" % (op.text, [type(r).__name__ for r in gc.get_referrers(wr())][:6]), op)]
-        if ident in self.cache:
-            ent = self.cache[ident]
-            try:
-                items = [(tok(k), tok(v)) for k, v in ent[1].items()]
-            except Exception:
-                items = "<unreadable>"
-            return [self.viol("entry-after-gc", "%s: the instance was collected but its cache entry is still there: %r"
-                              % (op.text, items), op)]
+        for cache in self.caches:
+            if ident in cache:
+                ent = cache[ident]
+                try:
+                    items = [(tok(k), tok(v)) for k, v in ent[1].items()]
+                except Exception:
+                    items = "<unreadable>"
+                return [self.viol("entry-after-gc", "%s: the instance was collected but its cache entry is still there: %r"
+                                  % (op.text, items), op)]
         return self._content_check(op, False)
 
     def canon(self):
-        per, stale = self._real_content()
-        r = tuple([None if d is None else tuple(sorted([(k, e[0]) for k, e in d.items()])) for d in self.ref])
-        p = tuple([None if x is None else tuple(sorted(x, key=repr)) for x in per])
-        return (r, p, len(stale), len(self.w.runs))
+        out = []
+        for u in range(len(self.tags)):
+            per, stale = self._real_content(u)
+            r = tuple([None if d is None else tuple(sorted([(k, e[0]) for k, e in d.items()])) for d in self.refs[u]])
+            p = tuple([None if x is None else tuple(sorted(x, key=repr)) for x in per])
+            out.append((r, p, len(stale)))
+        return (tuple(out), len(self.w.runs))
 
     def nontrivial(self):
-        return any(d for d in self.ref if d) or any(len(e[1]) for e in self.cache.values())
+        return any(d for r in self.refs for d in r if d) or any(len(e[1]) for c in self.caches for e in c.values())
 
 
 class AlazyRT(Runtime):
     def __init__(self, cfg):
         Runtime.__init__(self, cfg)
         self.ttl = cfg["ttl"]
-        self.base_feats += ["ttl:%d" % self.ttl]
-        for form in (0, 1):
-            op = Op("zcall")
-            op.form = form
-            op.text = "z() [%s]" % FORMS[form]
-            op.feats = ["form:" + FORMS[form]]
+        self.pair = bool(cfg.get("pair"))
+        self.tags = ["z"] + ([TWIN["z"]] if self.pair else [])
+        self.base_feats += ["ttl:%d" % self.ttl, "clock-start:%d" % cfg.get("start", CLOCK_START)]
+        if cfg.get("start", CLOCK_START) < CLOCK_START:
+            self.base_feats.append("small-clock")
+        if self.pair:
+            self.base_feats.append("shared-decorator")
+        for u, tag in enumerate(self.tags):
+            for form in (0, 1):
+                op = Op("zcall")
+                op.unit = u
+                op.tag = tag
+                op.form = form
+                op.text = "%s() [%s]" % (tag, FORMS[form])
+                op.feats = ["form:" + FORMS[form]]
+                self.ops.append(op)
+            op = Op("dirty")
+            op.unit = u
+            op.text = "%s.dirty()" % tag
+            op.feats = ["dirty"]
             self.ops.append(op)
-        op = Op("dirty")
-        op.text = "z.dirty()"
-        op.feats = ["dirty"]
-        self.ops.append(op)
         for s in CLOCK_STEPS:
             op = Op("clock")
             op.step = s
@@ -828,17 +974,17 @@ class AlazyRT(Runtime):
         op.text = "arm: the next body run raises"
         op.feats = ["arm-raise"]
         self.ops.append(op)
-        self.body = BODIES[("z", cfg["body"])]
+        self.bodies = [BODIES[(tag, cfg["body"])] for tag in self.tags]
         self._why = []
 
     def fresh(self):
         self.begin()
-        fn = _asynq()(self.body)
-        self.z = _tools.alazy_constant(ttl=self.ttl)(fn)
-        self.cell = None  # (value, refresh_time) ; None = nothing valid stored
+        decorator = _tools.alazy_constant(ttl=self.ttl)  # ONE decorator object; a pair configuration applies it twice
+        self.zs = [decorator(_asynq()(b)) for b in self.bodies]
+        self.cells = [None for _ in self.tags]  # per function: (value, refresh_time) ; None = nothing valid stored
         self.armed = False
         self.nruns = 0
-        self.since_dirty = None  # calls since the last dirty()
+        self.since_dirty = [None for _ in self.tags]  # calls since the last dirty()
         self._why = []
 
     def enabled(self):
@@ -857,33 +1003,35 @@ class AlazyRT(Runtime):
             w.armed = True
             self.armed = True
             return []
+        u = op.unit
+        z = self.zs[u]
         if k == "dirty":
             try:
-                self.z.dirty()
+                z.dirty()
             except BaseException as e:
                 return [self.viol("unexpected-exception", "dirty() raised %r" % (e,), op)]
-            self.cell = None
-            self.since_dirty = 0
+            self.cells[u] = None
+            self.since_dirty[u] = 0
             self.count("dirty")
             return []
         n0 = len(w.runs)
         try:
             if op.form == 0:
-                real = ("ok", self.z())
+                real = ("ok", z())
             else:
-                real = ("ok", self.z.asynq().value())
+                real = ("ok", z.asynq().value())
         except BaseException as e:
             if isinstance(e, (KeyboardInterrupt, SystemExit, MemoryError)):
                 raise
             real = _outcome(e)
         ran = w.runs[n0:]
-        cell = self.cell
+        cell = self.cells[u]
         now = w.now
         why = []
         if cell is None:
             miss = True
-            what = "nothing is stored (first call, after dirty(), or after a raising body)"
-            why.append("after-dirty" if self.since_dirty == 0 else "empty")
+            what = "nothing is stored (first call, after dirty(), or after a raising body); clock reads %d" % now
+            why.append("after-dirty" if self.since_dirty[u] == 0 else "empty")
         elif self.ttl != 0 and now - cell[1] > self.ttl:
             miss = True
             what = "the stored value is %d us old, ttl is %d" % (now - cell[1], self.ttl)
@@ -893,11 +1041,11 @@ class AlazyRT(Runtime):
             what = "a value stored %d us ago is valid (ttl %d)" % (now - cell[1], self.ttl)
             why.append("fresh")
         self._why = why
-        if self.since_dirty is not None:
-            self.since_dirty += 1
+        if self.since_dirty[u] is not None:
+            self.since_dirty[u] += 1
         if miss:
             self.nruns += 1
-            rec = ("z", self.nruns)
+            rec = (op.tag, self.nruns)
             exp_ran = [rec]
             if self.armed:
                 self.armed = False
@@ -905,7 +1053,7 @@ class AlazyRT(Runtime):
                 self.count("raising calls")
             else:
                 exp = ("ok", rec)
-                self.cell = (rec, now)
+                self.cells[u] = (rec, now)
                 self.count("recomputations" if self.nruns > 1 else "misses")
         else:
             exp = ("ok", cell[0])
@@ -921,14 +1069,17 @@ class AlazyRT(Runtime):
     def canon(self):
         w = self.w
         now = w.now
-        cell = self.cell
-        rt = self.z.alazy_constant_refresh_time
-        return (None if cell is None else (cell[0], now - cell[1]),
-                ("dirty" if rt == 0 else now - rt, tok(self.z.alazy_constant_cached_value)),
-                len(w.runs), self.armed, w.armed)
+        per = []
+        for u, z in enumerate(self.zs):
+            cell = self.cells[u]
+            rt = z.alazy_constant_refresh_time
+            per.append((None if cell is None else (cell[0], now - cell[1]),
+                        ("dirty" if rt == 0 else now - rt, tok(z.alazy_constant_cached_value))))
+        # a small absolute clock value is part of the state (a clock that started recently); a large one is not
+        return (tuple(per), len(w.runs), self.armed, w.armed, now if now < 4096 else None)
 
     def nontrivial(self):
-        return self.cell is not None or self.z.alazy_constant_refresh_time != 0
+        return any(c is not None for c in self.cells) or any(z.alazy_constant_refresh_time != 0 for z in self.zs)
 
 
 def make_runtime(cfg):
